@@ -103,7 +103,16 @@ def same_name_var_and_let(b):
 
 # constructs whose defect is fixed in /repo are no longer excluded: FIXED lists them permanently; VERIF_C09_LIFT=K5,K8 lifts more for a
 # trial run against a patched tree (maintenance)
-FIXED_NOTES = {'K13': 'fixed: property=C09 652de3f K13 SVG path: the trailing "00" -> "e2" shortening was applied to exponent digits (L1e100 5 -> 1e1e2 5)'}
+FIXED_NOTES = {
+    'K1': 'fixed: property=C09 f235be9 K1 JS literal escapes decoded / backslash dropped so that "</script" appeared inside an HTML script element (\\x3C/script>, <\\/SCRIPT>, <\\/script >)',
+    'K5': 'fixed: property=C09 badfec1 K5 JSON document ending right after a colon was accepted and printed without the colon',
+    'K7': 'fixed: property=C09 fbe658d K7 XML/SVG &#0; was decoded to a raw NUL byte that the minifier\'s own lexer rejects',
+    'K8': 'fixed: property=C09 b945f00 K8 export{} was printed as the bare keyword export',
+    'K9': 'fixed: property=C09 8c62b44 K9 SVG path coordinate beyond the float64 range was printed as Inf',
+    'K11': 'fixed: property=C09 4519604 K11 <script type="text/JavaScript"> was left unminified while its type attribute was dropped',
+    'K13': 'fixed: property=C09 652de3f K13 SVG path: the trailing "00" -> "e2" shortening was applied to exponent digits (L1e100 5 -> 1e1e2 5)',
+    'K16': 'fixed: property=C09 115c051 K16 1[\'s\'] was shortened to 1.s',
+}
 FIXED = set(FIXED_NOTES)
 LIFTED = FIXED | set(filter(None, os.environ.get('VERIF_C09_LIFT', '').split(',')))
 
@@ -792,8 +801,9 @@ def run(ctx):
         rule='a case is (language, option set, inline flag, sha1 of the input bytes); inputs: every file of tests/*/corpus and _benchmarks, '
              'the first two strings of every row of the repository\'s table tests, those embedded in HTML hosts, seeded byte-level mutations / '
              'boundary splices / whitespace-comment insertions of them, JsLexAdj adjacency programs, re-injected outputs; non-trivial = accepted '
-             'and the output differs from the input (or the second pass differs from the first). Generator exclusion (known finding): HTML '
-             'inputs whose bytes contain an escape sequence spelling of "</script" inside script text (regex KNOWN_CONSTRUCT in tools/props/c09.py)',
+             'and the output differs from the input (or the second pass differs from the first). Generator exclusions (known findings, narrow '
+             'regular expressions on the input bytes in tools/props/c09.py excluded()): K2 K3 K4 K6 K10 K12 K14 K15 K17; lifted because fixed in /repo: '
+             + ' '.join(sorted(FIXED)),
         samples=samples,
     ))
     ctx.assumptions += [
